@@ -144,4 +144,15 @@ CLAIMS['C12'] = dict(
     note=('relative to: clang-14 lowering, STIR, the strto* model and the lemma that division by a radix >= 2 reaches 0 within bit-width '
           'steps; bases 2..36; what strto* returns and that the quotient/remainder sequence spells the canonical digits is libc / arithmetic'),
     technique='static analysis: abstract interpretation with full-range integers (overflow events, magnitude term vs oracle), loop step summary + arithmetic lemma')
+CLAIMS['C13'] = dict(
+    level='other',
+    text=('Equality with printf holds by delegation to the same C library; what is decided statically is everything around that call, for '
+          'all 16 (sign flag, precision given, notation) combinations of ST::format\'s renderer and for float_formatter: the assembled '
+          'conversion string is exactly %[+][.digits]{e,E,f,g} NUL-terminated, the size given to snprintf is the size of its destination, no '
+          'assertion is reachable whatever length snprintf reports (the length is an unbounded symbol), the emitted length is the reported '
+          'one and the pad count is width - length on the requested side; to_float / to_double call strtof / strtod directly and follow '
+          'the ok / full_match table.'),
+    note=('relative to: clang-14 lowering, STIR, the snprintf model (writes at most size bytes, returns the untruncated length >= 1); the '
+          'digits produced are libc\'s - not analysed, which is why the level is not "proof" of the value equation'),
+    technique='static analysis: abstract interpretation around the libc call with the printed length symbolic; conversion-string reconstruction per flag combination')
 NOT_APPLICABLE = {}
